@@ -42,6 +42,9 @@ def scenarios(thorough):
             out.append(base_cfg(body=body, raise_at=at, dest_present=dp))
     for op in (False, True):
         out.append(base_cfg(part_present=True, overwrite_part=op))
+        # leftover of a crash between link() and unlink(): the part name is a hard link to the destination
+        for ow in (False, True):
+            out.append(base_cfg(part_present="link", overwrite_part=op, overwrite=ow, dest_present=True))
     return out
 
 
